@@ -131,6 +131,17 @@ package stats
 //@   requires delta > 0 && a < b
 //@   ensures lo + a/delta < lo + b/delta
 
+// NewLogHist: bins for m*log_b(x) = 0 .. ceil(m*log_b(max)), all empty. The
+// base must not be 1 (log 1 = 0 would divide by zero) and the bin count must
+// not be negative (max >= 1 with m >= 0, in effect).
+//@ func NewLogHist
+//@   model real
+//@   requires b >= 2 && log(b) != 0 && (m / log(b)) * log(max) > -1
+//@   ensures [shape] result != nil && result.b == b && result.m == m && result.mOverLogb == m / log(b) && result.low == 0 && result.high == 0
+//@   ensures [bins]  len(result.bins) == iceil((m / log(b)) * log(max)) && (forall j in 0..len(result.bins) :: result.bins[j] == 0)
+//@   ensures [fresh] fresh(result) && fresh(result.bins)
+//@   assigns nothing
+
 //@ func LogHist.bin
 //@   inline
 //@   assigns nothing
@@ -771,6 +782,17 @@ package stats
 //@   ensures [infinite] !(confidence <= 0) && (confidence >= 1 || len(xs) <= 1) && isfinite(mean) ==> lo == ninf && hi == inf
 //@   ensures [empty]    len(xs) == 0 ==> isnan(mean)
 //@   ensures [width]    !(confidence <= 0) && !(confidence >= 1 || len(xs) <= 1) ==> lo == mean - (-InvCDF(TDist{len(xs) - 1})((1 - confidence) / 2)) * StdDev(xs) / sqrt(len(xs)) && hi == mean + (-InvCDF(TDist{len(xs) - 1})((1 - confidence) / 2)) * StdDev(xs) / sqrt(len(xs))
+//@   assigns nothing
+
+// The Sample wrapper: unweighted (or empty) samples delegate to MeanCI; the
+// weighted case is an explicit "not implemented" panic and outside the contract.
+//@ func Sample.MeanCI
+//@   model xreal
+//@   requires len(s.Xs) == 0 || isnil(s.Weights)
+//@   ensures [mean]     mean == Mean(s.Xs)
+//@   ensures [zero]     confidence <= 0 ==> lo == mean && hi == mean
+//@   ensures [infinite] !(confidence <= 0) && (confidence >= 1 || len(s.Xs) <= 1) && isfinite(mean) ==> lo == ninf && hi == inf
+//@   ensures [width]    !(confidence <= 0) && !(confidence >= 1 || len(s.Xs) <= 1) ==> lo == mean - (-InvCDF(TDist{len(s.Xs) - 1})((1 - confidence) / 2)) * StdDev(s.Xs) / sqrt(len(s.Xs)) && hi == mean + (-InvCDF(TDist{len(s.Xs) - 1})((1 - confidence) / 2)) * StdDev(s.Xs) / sqrt(len(s.Xs))
 //@   assigns nothing
 
 // ---------------------------------------------------------------------
